@@ -123,6 +123,14 @@ CLAIMED = {
             "The exchange is explored exhaustively to the script depth bound; the data path is bound by trace validation over random "
             "directories, block sizes and request scripts including every refusal class of the property.",
             "DESIGN.md 8 (C11)", TB),
+    "C12": ("model_checking",
+            "TLA+ grammar of the derive attributes (DeriveGrammar: behaviours = struct definitions, well-formedness as action guards) "
+            "enumerated by TLC for all definitions with <= 2 fields and simulated up to 6; a seeded sample is generated as Rust source, compiled "
+            "with the working tree's macro, and as a layout table for the reference codec; values, permutations, duplicates, foreign tags and "
+            "suffixes from the same generators as C01/C13/C14 run on the derived code; TLC judges (TraceCodec over the generated layout)",
+            "programs are enumerated exhaustively at 2 fields (pairwise interaction of all field variants) and sampled for compilation "
+            "(260 + 40 larger structs quick, ~5,000 thorough); the oracle interprets the generator's own description, never the macro's output.",
+            "DESIGN.md 8 (C12)", TB),
     "C13": ("model_checking",
             "TLC re-assembles reference-encoded tagged groups (Gen_C13: permutations, duplicates, removals, foreign tags) with the outcome the "
             "property demands; the real decoder runs on every case; TLC judges (TraceCodec P13 flags)",
